@@ -23,7 +23,8 @@ class FakeConn(object):
         self.requests.append({'method': method, 'path': path, 'body': body, 'headers': dict(headers)})
 
     def getresponse(self):
-        return FakeResponse(self.replies.pop(0))
+        r = self.replies.pop(0)
+        return None if r is None else FakeResponse(r)       # None: no HTTP response at all
 
     def close(self):
         pass
